@@ -18,6 +18,7 @@ pub struct LayoutProp {
     pub stream_len: usize,
     /// returns Ok(nontrivial?)
     pub oracle: Oracle,
+    pub capture_debug: bool,
 }
 
 pub fn classify(b: &Built, st: &mut Stats) {
@@ -130,7 +131,11 @@ impl Prop for LayoutProp {
         gen_plan(src, &self.cfg)
     }
     fn check(&self, plan: &Plan, lane: usize, st: &mut Stats) -> Result<(), Fail> {
-        let built = build_plan(plan, pool(lane, 1), &BuildOpts::default())
+        let opts = BuildOpts {
+            capture_debug: self.capture_debug,
+            ..BuildOpts::default()
+        };
+        let built = build_plan(plan, pool(lane, 1), &opts)
             .map_err(|e| Fail::keyed("build-or-identify", e))?;
         classify(&built, st);
         let nontrivial = (self.oracle)(plan, &built, st)?;
